@@ -385,6 +385,36 @@ def gen_stream(rng, geom, nblocks, maxblock, big=False, ringfill=False):
                     last = b["content"]
     return out
 
+def gen_ringmin(rng):
+    """the wrap of a decoding ring buffer of exactly LZ4_DECODER_RING_BUFFER_SIZE(maxblock) bytes: literal-only blocks fill
+    the first lap up to `lap` bytes (fewer than maxblock bytes remain), then a block at the ring start whose first match
+    reaches as far back as the format allows, right after a literal run that the fast loop copies with LZ4_wildCopy32.
+    returns (blocks, maxblock, lap)"""
+    maxblock = rng.choice([1024, 1024, 300, 4000])
+    lap = 65536 + 14 + rng.choice([1, 1, 2, 8, 15])            # ring size - lap < maxblock: the caller wraps
+    out = []
+    total = bytearray()
+    while len(total) < lap:
+        n = min(maxblock, lap - len(total))
+        content = rng.randbytes(n)
+        out.append({"hist": bytes(total[-65536:]), "blk": encode_seqs([], content), "content": content, "profile": "ringmin_lit"})
+        total += content
+    ll = rng.choice([33, 33, 65, 17, 34, 40, 47, 15, 14, 1])
+    lits = rng.randbytes(ll)
+    off = 65535 - rng.choice([0, 0, 0, 1, 7, 14])
+    ml = rng.choice([4, 8, 8, 19, 40])
+    last = rng.randbytes(rng.choice([40, 64, 100]))
+    seqs = [(lits, off, ml)]
+    content = decode_seqs(bytes(total), seqs, last)
+    out.append({"hist": bytes(total[-65536:]), "blk": encode_seqs(seqs, last), "content": content, "profile": "ringmin_wrap"})
+    return out, maxblock, lap
+
+def model_ringwrap(orc2, fastloop, ring, lap, blk, cap):
+    """Model/DecRingWrap.v (oracle dec2): the wrap call with the dictionary in the same memory; returns (ret, ok, md5(ring afterwards))"""
+    a = orc2.ask("ringwrap", hx(ring), str(lap), hx(blk), str(cap), "1" if fastloop else "0")
+    t = a.split()
+    return int(t[0]), t[1], t[3]
+
 def _ext(v):
     o = bytearray()
     while v >= 255:
